@@ -51,9 +51,11 @@ enum Enc {
     E_ASCII,    // ASCII-only content, default_encoding_name = "US-ASCII" (a named 7-bit default)
     E_SYSU,     // UTF-8 bytes, name NULL together with force = 1: the forced system default (force = 0 would repeat E_U8)
     E_U8L1,     // UTF-8 bytes but default_encoding_name = "ISO-8859-1" (force = 0 only): shows whether the named default or UTF-8 decoded
+    E_W1252,    // as E_L1 (characters U+00A0..U+00FF only, where the two code pages agree) but default_encoding_name = "windows-1252":
+                // a table-driven ICU converter whose canonical name ("ibm-5348_P100-1997") is nothing like the option string
     N_ENC
 };
-static const char *ENC_NAME[N_ENC] = {"UTF-8", "UTF-16LE", "UTF-16BE", "UTF-32LE", "UTF-32BE", "ISO-8859-1(named)", "US-ASCII(named)", "sysdefault(forced)", "UTF-8-bytes/named-ISO-8859-1"};
+static const char *ENC_NAME[N_ENC] = {"UTF-8", "UTF-16LE", "UTF-16BE", "UTF-32LE", "UTF-32BE", "ISO-8859-1(named)", "US-ASCII(named)", "sysdefault(forced)", "UTF-8-bytes/named-ISO-8859-1", "windows-1252(named)"};
 enum Dec { D_U8 = 0, D_U16LE, D_U16BE, D_U32LE, D_U32BE, D_L1, D_ASCII };
 static const char *DEC_NAME[] = {"UTF-8", "UTF-16LE", "UTF-16BE", "UTF-32LE", "UTF-32BE", "ISO-8859-1", "US-ASCII"};
 
@@ -69,7 +71,7 @@ static bool cell_from(long i, Cell &c) {
     return true;
 }
 static bool has_sig(const Cell &c) { return c.bom || c.magic == M_20_AFTER_BOMSP; }      // the encoded text starts with U+FEFF
-static bool unicode_bytes(int enc) { return enc != E_L1 && enc != E_ASCII; }
+static bool unicode_bytes(int enc) { return enc != E_L1 && enc != E_ASCII && enc != E_W1252; }
 static bool cell_valid(const Cell &c) {
     if (!unicode_bytes(c.enc) && has_sig(c)) return false;                                  // U+FEFF has no Latin-1 / ASCII form
     if (c.enc >= E_U16LE && c.enc <= E_U32BE && !c.force && !has_sig(c)) return false;      // BOM-less UTF-16/32 is only promised "in most cases"
@@ -90,6 +92,7 @@ static const char *enc_option_name(const Cell &c) {
     case E_U32BE: return c.force ? "UTF-32BE" : nullptr;
     case E_L1: case E_U8L1: return "ISO-8859-1";
     case E_ASCII: return "US-ASCII";
+    case E_W1252: return "windows-1252";
     default: return nullptr;
     }
 }
@@ -99,7 +102,7 @@ static const char *SYS_DEFAULT = "UTF-8";
 static Dec actual_encoding(const Cell &c) {
     switch (c.enc) {
     case E_U16LE: return D_U16LE; case E_U16BE: return D_U16BE; case E_U32LE: return D_U32LE; case E_U32BE: return D_U32BE;
-    case E_L1: return D_L1; case E_ASCII: return D_ASCII; default: return D_U8;
+    case E_L1: case E_W1252: return D_L1; case E_ASCII: return D_ASCII; default: return D_U8;
     }
 }
 static Dec named_or_system(const Cell &c) {
@@ -203,7 +206,7 @@ static Probe build_probe(const CaseFile &c, const Cell &cell) {
     for (auto &x : na) {
         if (x < 0x80) continue;
         if (cell.enc == E_ASCII) x = 'e';
-        else if (cell.enc == E_L1 && x > 0xFF) x = 0xE9;
+        else if ((cell.enc == E_L1 || cell.enc == E_W1252) && (x > 0xFF || x < 0xA0)) x = 0xE9;
         else if (cell.enc == E_U8L1 && !utf8_bytes_all_high(x)) x = 0xE9;   // keeps the Latin-1 reading of its UTF-8 bytes free of C1 controls
     }
     if (na.empty()) na = U"e";
